@@ -149,14 +149,35 @@ struct DynClass {
         auto dk = [&]() { return domain[work.below(domain.size())]; };
         uint64_t next_value = 1;
 
-        // bulk-load: empty, tiny, with repeated keys, or large (E1)
+        // scale slot ("deep"): base 2 with the smallest buffer and more than 2^18 resident entries, i.e. more than 16 non-empty
+        // levels at a time; executed by one bulk operation without per-update oracles, judged afterwards
+        bool deep = scale_slot(g) && !large && sizeof(K) >= 4 && g.prop != "C19" && g.prop != "C20";
+        if (deep) {
+            p.set("base", 2); p.set("buffer_level", 1); p.set("index_level", cfg.chance(500) ? cfg.range(2, 8) : 0);
+            p.set("scale", 1);
+            // the levels fill like a binary counter: walk the resident count through 2^18 - 1 (all levels non-empty) one insert
+            // at a time, judging size() (a full iteration) at every step
+            std::string mode = std::to_string(cfg.below(2));
+            p.item('O', "G " + std::to_string(262143 - 3 - cfg.range(20, 40)) + " " + std::to_string(work.next() >> 1) + " " + mode);
+            for (int i = 0; i < 64; ++i) { p.item('O', "G 1 " + std::to_string(work.next() >> 1) + " " + mode); p.item('O', "S"); }
+            p.item('O', "T");
+            for (int i = 0; i < 6; ++i) p.item('O', "L " + key_text(km.at(work.range(0, std::min<uint64_t>(km.U, uint64_t(1) << 40)))) + " 5");
+            return p;
+        }
+        // bulk-load: empty, tiny, with repeated keys, medium (a level far larger than the buffer), or large (E1)
         size_t nb = 0;
+        bool medium = !large && !boundary && cfg.chance(60);
         if (large) nb = (size_t) cfg.range(33000, g.tsan ? 45000 : 70000);
+        else if (medium) nb = (size_t) cfg.range(2000, 30000);
         else switch (cfg.below(5)) { case 0: nb = 0; break; case 1: nb = (size_t) cfg.range(1, 4); break; case 2: nb = (size_t) cfg.range(1, domain.size()); break; default: nb = (size_t) cfg.range(0, 300); }
         if (boundary) nb = (size_t) cfg.below(4);
         if (nb > 0) {
             std::vector<K> bk;
-            if (large) { // a large sorted key set of its own, the domain keys are mixed in
+            if (medium) { // every domain key plus random others: later operations on domain keys update keys of the big level
+                bk = domain;
+                while (bk.size() < nb) bk.push_back(km.at(work.range(0, km.U)));
+                std::sort(bk.begin(), bk.end());
+            } else if (large) { // a large sorted key set of its own, the domain keys are mixed in
                 std::string sig;
                 gen::KeyGenParams kp; kp.n = nb; kp.U = km.U; kp.eps = PE; kp.chunks = chunks_for(env_from_plan(p), nb);
                 auto pos = gen::gen_positions(kp, cfg, work, sig);
@@ -415,6 +436,27 @@ struct DynClass {
                 after_update();
                 if (out.ok && do_point) check_find(*cur, model, k, out, tr);
                 if (full_sweep && out.ok) { sweep(*cur, model); full_sweep = false; }
+            } else if (o.kind == "G" && o.a.size() >= 3) {
+                // bulk operation of the scale slot: `count` inserts of (mostly) distinct keys, model updated alongside, no per-update oracle
+                if (!src_usable) continue;
+                size_t count = (size_t) o.a[0];
+                Rng gr((uint64_t) o.a[1]);
+                bool random_keys = o.a[2] != 0;
+                gen::KeyMap<K> km;
+                uint64_t cur_u = 1000 + 4 * (uint64_t) updates; // ascending mode continues above everything inserted so far
+                for (size_t gi = 0; gi < count; ++gi) {
+                    uint64_t u = random_keys ? gr.range(0, std::min<uint64_t>(km.U, uint64_t(1) << 40)) : (cur_u = std::min<uint64_t>(km.U, cur_u + 1 + gr.below(3)));
+                    K k = km.at(u);
+                    V v = VM::make(1000000 + gi);
+                    cur->insert_or_assign(k, v);
+                    model[k] = v;
+                    ++updates;
+                }
+                size_t nonempty = 0;
+                for (auto &L : Access::levels(*cur)) if (!L.empty()) ++nonempty;
+                st.max("max_levels_with_data", nonempty);
+                if (nonempty > 16) st.inc("reach.more_than_16_levels");
+                if (do_shape && out.ok) check_shape(*cur, cap, env, out, st, tr);
             } else if (o.kind == "E" && !o.a.empty()) {
                 if (!src_usable) continue;
                 K k = (K) o.a[0];
